@@ -6,6 +6,9 @@
 //
 //	reent-seq : one goroutine; results of all calls (nested ones included, in return order) must equal the
 //	            snapshot-then-callbacks semantics computed by the Go spec, and the thread-program model (CSeq).
+//	            Batch pairs of consumers are numbered (call.Bid): a `commit` commits the object of ITS `batched`, so a
+//	            pair may enclose re-entrant Iterates with pairs of their own or end in a later callback. A `commit`
+//	            whose Batched failed (closed store) is not a call: it is dropped from the script given to Coq.
 //	reent-conc: the consumer signals "inside callback j"; the harness starts a writer goroutine and waits until
 //	            that writer has returned or is parked (wait state from runtime.Stack), then lets the consumer
 //	            re-enter. Every party must return (watchdog); the history must be linearizable (Go + CLin).
@@ -40,6 +43,11 @@ type reentrant struct {
 	pause  func(j int)    // invoked at the start of callback j of the top-level Iterate
 	depth  int            // nesting depth of the call being executed
 	where  func(s string) // progress note for the watchdog
+	// nested `commit`s the harness did NOT make because there was no batch object (its Batched had failed on the closed store, or -
+	// pairs with Bid 0 only - another pair had used the goroutine's slot meanwhile). Identified by the address of the call inside the
+	// script (every nested call of a script is executed at most once). Such a call is no call of the store: prunedScript drops it from
+	// the script given to the Coq model.
+	skipped map[*call]bool
 }
 
 // callback is the body of the consumer of `c` at its j-th invocation.
@@ -53,9 +61,14 @@ func (a *actor) callback(c call, j int) {
 	if j >= len(c.Cb) {
 		return
 	}
-	for _, nc := range c.Cb[j] {
-		if nc.Kind == "commit" && a.batch == nil {
-			continue // Batched failed: nothing to commit
+	for i := range c.Cb[j] {
+		nc := c.Cb[j][i]
+		if nc.Kind == "commit" && a.batchOf(nc) == nil {
+			if a.skipped == nil {
+				a.skipped = map[*call]bool{}
+			}
+			a.skipped[&c.Cb[j][i]] = true // no batch object: no call is made (and none is reported to the model)
+			continue
 		}
 		if a.where != nil {
 			a.where(fmt.Sprintf("inside callback %d of %s on view %d: %s on view %d", j, c.Kind, c.V, nc.Kind, nc.V))
@@ -78,11 +91,44 @@ func (a *actor) callback(c call, j int) {
 	}
 }
 
+// prunedScript: the calls that were really made. A nested `commit` without a batch object is not executed by the harness
+// (there is nothing to call Commit on), so the script handed to the Coq model must not contain it either: in the model a
+// CCommit is always a call (ICheck ..) with a result of its own. The top-level scripts do the same through `done`.
+func prunedScript(script []call, skipped map[*call]bool) []call {
+	out := make([]call, len(script))
+	for i := range script {
+		out[i] = pruneCall(script[i], skipped)
+	}
+	return out
+}
+
+func pruneCall(c call, skipped map[*call]bool) call {
+	if c.Cb == nil {
+		return c
+	}
+	out := c
+	out.Cb = make([][]call, len(c.Cb))
+	for j := range c.Cb {
+		out.Cb[j] = []call{}
+		for i := range c.Cb[j] {
+			if skipped[&c.Cb[j][i]] {
+				continue
+			}
+			out.Cb[j] = append(out.Cb[j], pruneCall(c.Cb[j][i], skipped))
+		}
+	}
+	return out
+}
+
 // ---------------------------------------------------------------- sequential reference (Go spec, call level)
 
 type refSt struct {
 	s        gstate
-	hasBatch bool
+	hasBatch map[int]bool // by Bid: a batch object exists (Batched succeeded, not committed yet)
+}
+
+func newRefSt() *refSt {
+	return &refSt{s: gstate{map[string]string{}, false}, hasBatch: map[int]bool{}}
 }
 
 func iterSop(c call) sop {
@@ -117,13 +163,13 @@ func refCall(st *refSt, c call, out *[]ret) {
 	case "close":
 		one(sop{Kind: "close"})
 	case "batched":
-		st.hasBatch = !st.s.closed
+		st.hasBatch[c.Bid] = !st.s.closed
 		one(sop{Kind: "nop"})
 	case "commit":
-		if !st.hasBatch {
+		if !st.hasBatch[c.Bid] {
 			return
 		}
-		st.hasBatch = false
+		st.hasBatch[c.Bid] = false
 		if st.s.closed {
 			*out = append(*out, ret{Kind: "closed"})
 			return
@@ -175,27 +221,116 @@ func (g *gen) nearView(v int) int {
 	return g.r.Intn(len(views)) // sibling, parent, child
 }
 
-// consumer body: 1..3 callbacks with 0..2 nested calls each
+// every batched/commit pair made by a consumer gets a number of its own: `commit` commits the batch object of ITS `batched`,
+// whatever other pairs the goroutine opened or closed in between (a pair may enclose a re-entrant Iterate with pairs of its own)
+func (g *gen) numberPairs(cs []call) {
+	bid := 0
+	for i := range cs {
+		switch cs[i].Kind {
+		case "batched":
+			g.bid++
+			bid = g.bid
+			cs[i].Bid = bid
+		case "commit":
+			cs[i].Bid = bid
+		}
+	}
+}
+
+func (g *gen) writes(v int, n int) []write {
+	keys := relKeys(views[v].Realm, universe)
+	var ws []write
+	for i := 0; i < n; i++ {
+		k := vx.Pick(g.r, keys)
+		if i > 0 && g.r.Chance(1, 2) {
+			k = ws[g.r.Intn(len(ws))].K // the same key again: delete-then-set, set-then-delete, set twice
+		}
+		if g.r.Chance(2, 5) {
+			ws = append(ws, write{K: k, Del: true})
+		} else {
+			ws = append(ws, write{K: k, Val: g.value(0)})
+		}
+	}
+	return ws
+}
+
+// one group of nested calls of a consumer of an Iterate over view v (a single call, or Batched .. Commit)
+func (g *gen) group(v int, depth int, pClose int, readOnly bool) []call {
+	for {
+		if depth < 3 && g.r.Chance(1, 5) { // a re-entrant Iterate of its own (callOn yields a plain Iterate in 14 % only)
+			c := g.reentIterAt(g.nearView(v), depth+1, pClose, readOnly)
+			if depth == 2 {
+				c.Lim = 1 + g.r.Intn(2) // third level: short
+			}
+			return []call{c}
+		}
+		cs := g.callOn(0, g.nearView(v), pClose)
+		if k0 := cs[0].Kind; readOnly && k0 != "get" && k0 != "has" && k0 != "iter" {
+			continue
+		}
+		for i := range cs {
+			if cs[i].Kind == "iter" && depth < 2 && g.r.Chance(1, 2) {
+				cs[i].Cb = g.consumer(cs[i].V, depth+1, pClose, readOnly)
+			}
+		}
+		g.numberPairs(cs)
+		return cs
+	}
+}
+
+// consumer body: 1..3 callbacks with 0..2 groups of nested calls each. A writing consumer wraps, in 1 of 3 callbacks, its groups
+// into a batch pair of its own (Batched first, then the groups - re-entrant Iterates with pairs of their own, Close, .. - then
+// Commit), and moves the Commit of such a pair into the NEXT callback half of the time (a batch object that lives across consumer
+// invocations: never committed when the iteration stops before).
 func (g *gen) consumer(v int, depth int, pClose int, readOnly bool) [][]call {
 	n := 1 + g.r.Intn(3)
 	cb := make([][]call, n)
+	var carry []call // Commit deferred from the previous callback
 	for j := range cb {
 		cb[j] = []call{}
 		k := g.r.Intn(3)
 		if j == 0 && k == 0 {
 			k = 1
 		}
-		for len(cb[j]) < k {
-			cs := g.callOn(0, g.nearView(v), pClose)
-			if k0 := cs[0].Kind; readOnly && k0 != "get" && k0 != "has" && k0 != "iter" {
-				continue
-			}
-			for i := range cs {
-				if cs[i].Kind == "iter" && depth < 2 && g.r.Chance(1, 2) {
-					cs[i].Cb = g.consumer(cs[i].V, depth+1, pClose, readOnly)
+		var body []call
+		for len(body) < k {
+			body = append(body, g.group(v, depth, pClose, readOnly)...)
+		}
+		var commit []call
+		if !readOnly && g.r.Chance(1, 3) {
+			bv := g.nearView(v)
+			g.bid++
+			bid := g.bid // (the enclosed Iterate numbers its own pairs after this one)
+			if depth < 3 && (len(body) == 0 || g.r.Chance(1, 2)) {
+				c := g.reentIterAt(g.nearView(v), depth+1, pClose, false) // what the pair encloses: at least one re-entrant Iterate
+				if depth >= 2 {
+					c.Lim = 1 + g.r.Intn(2)
 				}
+				body = append(body, c)
 			}
-			cb[j] = append(cb[j], cs...)
+			if pClose > 0 && g.r.Chance(1, 4) { // Close while the batch object is alive: its Commit and every later Batched fail
+				at := g.r.Intn(len(body) + 1)
+				body = append(body[:at:at], append([]call{{Kind: "close", V: g.nearView(v)}}, body[at:]...)...)
+			}
+			body = append([]call{{Kind: "batched", V: bv, Bid: bid}}, body...)
+			commit = []call{{Kind: "commit", V: bv, Bid: bid, Ws: g.writes(bv, g.r.Intn(4))}}
+		}
+		if len(carry) > 0 && g.r.Chance(1, 2) {
+			cb[j] = append(cb[j], carry...)
+			carry = nil
+		}
+		cb[j] = append(cb[j], body...)
+		cb[j] = append(cb[j], carry...)
+		carry = nil
+		if pClose > 0 && !readOnly && j+1 < n && g.r.Chance(1, 3) {
+			// Close at the end of a callback that is not the last: the remaining callbacks of this iteration still run (the entries were
+			// copied), every call they make fails, a Batched yields no batch object and its Commit is never made
+			cb[j] = append(cb[j], call{Kind: "close", V: g.nearView(v)})
+		}
+		if len(commit) > 0 && j+1 < n && g.r.Chance(1, 2) {
+			carry = commit
+		} else {
+			cb[j] = append(cb[j], commit...)
 		}
 	}
 	return cb
@@ -203,6 +338,10 @@ func (g *gen) consumer(v int, depth int, pClose int, readOnly bool) [][]call {
 
 // an Iterate over view v that finds something (given prep wrote below the realm of v) with a re-entrant consumer
 func (g *gen) reentIter(v int, pClose int) call {
+	return g.reentIterAt(v, 1, pClose, g.r.Chance(1, 3))
+}
+
+func (g *gen) reentIterAt(v int, depth int, pClose int, readOnly bool) call {
 	pfx := ""
 	if g.r.Chance(1, 4) {
 		pfx = vx.Pick(g.r, relKeys(views[v].Realm, prefixes))
@@ -212,7 +351,7 @@ func (g *gen) reentIter(v int, pClose int) call {
 		lim = 1 + g.r.Intn(2)
 	}
 	return call{Kind: "iter", V: v, K: pfx, Fwd: g.r.Chance(3, 4), Keys: g.r.Chance(1, 4), Lim: lim,
-		Cb: g.consumer(v, 1, pClose, g.r.Chance(1, 3))}
+		Cb: g.consumer(v, depth, pClose, readOnly)}
 }
 
 // 2..4 writes through the root that put entries below the realm of view v
@@ -320,27 +459,145 @@ func flattenObs(a *actor, r ret, obs *[]ret) {
 	a.nested = a.nested[:0]
 }
 
+// shape of a script: what the consumers contain (recorded in the input distribution)
+type reShape struct {
+	nestedIter   int // re-entrant Iterate inside a consumer
+	enclosing    int // batched ... commit pair that encloses a nested Iterate or another pair
+	laterCommit  int // commit in a later callback than its batched
+	closeInside  int // Close made by a consumer
+	pairs        int
+	maxDepth     int
+	nestedReads  int
+	nestedWrites int
+}
+
+func shapeOf(c call, depth int, sh *reShape) {
+	if c.Cb == nil {
+		return
+	}
+	sh.maxDepth = max(sh.maxDepth, depth)
+	where := map[int]int{} // Bid -> callback of its batched
+	open := map[int]bool{}
+	for j, cs := range c.Cb {
+		for _, nc := range cs {
+			switch nc.Kind {
+			case "get", "has", "iter":
+				sh.nestedReads++
+			case "set", "del", "delprefix", "clear", "commit":
+				sh.nestedWrites++
+			}
+			switch nc.Kind {
+			case "batched":
+				sh.pairs++
+				where[nc.Bid] = j
+				open[nc.Bid] = true
+				for b := range open {
+					if b != nc.Bid && open[b] {
+						sh.enclosing++
+					}
+				}
+			case "commit":
+				if jb, ok := where[nc.Bid]; ok && jb < j {
+					sh.laterCommit++
+				}
+				delete(open, nc.Bid)
+			case "close":
+				sh.closeInside++
+			case "iter":
+				if nc.Cb != nil {
+					sh.nestedIter++
+					sh.enclosing += len(open)
+					shapeOf(nc, depth+1, sh)
+				}
+			}
+		}
+	}
+}
+
+// directedReentSeq: regression scripts, run first in every tier. D1..D3 are the shrunk scripts of three false alarms of the thorough
+// tier (seeds 1001, 1001, 3001): a nested `commit` the harness had not made (no batch object) was still handed to the model.
+func directedReentSeq() [][]call {
+	val := func(i int) string { return string([]byte{1, byte(200 + i)}) }
+	set := func(v int, k string, i int) call { return call{Kind: "set", V: v, K: k, Val: val(i)} }
+	all := call{Kind: "iter", V: 0, Fwd: true, Lim: 9}
+	ba := func(v, bid int) call { return call{Kind: "batched", V: v, Bid: bid} }
+	co := func(v, bid int, ws ...write) call { return call{Kind: "commit", V: v, Bid: bid, Ws: ws} }
+	ws := func(k string, i int) write { return write{K: k, Val: val(i)} }
+	wd := func(k string) write { return write{K: k, Del: true} }
+	prep := []call{set(0, "a", 0), set(0, "ab", 1), set(0, "abc", 2)}
+	mk := func(cs ...call) []call { return append(append(append([]call{}, prep...), cs...), all) }
+	d1 := func(outer, inner int, ows ...write) []call {
+		return mk(call{Kind: "iter", V: 3, Fwd: true, Lim: 2, Cb: [][]call{
+			{ba(3, outer),
+				{Kind: "iter", V: 4, Fwd: true, Lim: 1, Cb: [][]call{{ba(0, inner), co(0, inner, wd("ab"), ws("ab", 3))}}},
+				co(3, outer, ows...)},
+			{{Kind: "get", V: 0, K: "b"}, set(3, "bc", 4)},
+			{{Kind: "delprefix", V: 5, K: "c"}}}})
+	}
+	d3 := func(b1, b2, b3 int) []call {
+		return mk(call{Kind: "iter", V: 2, Fwd: true, Keys: true, Lim: 9, Cb: [][]call{{
+			ba(2, b1),
+			{Kind: "iter", V: 4, Fwd: true, Keys: true, Lim: 9, Cb: [][]call{
+				{ba(4, b2), {Kind: "close", V: 1}, co(4, b2, ws("ab", 5), ws("a", 6), ws("ab", 7))},
+				{{Kind: "iter", V: 1, Keys: true, Lim: 9}, ba(4, b3), co(4, b3, ws("ab", 8), wd("abc"), ws("b", 9))},
+				{{Kind: "iter", V: 1, K: "bc", Lim: 9}, {Kind: "clear", V: 5}}}},
+			co(2, b1, ws("", 10))}}})
+	}
+	across := func(lim int, mid ...call) []call {
+		cb0 := append([]call{ba(1, 1), set(1, "b", 11)}, mid...)
+		return mk(call{Kind: "iter", V: 1, Fwd: true, Lim: lim, Cb: [][]call{
+			cb0,
+			{{Kind: "get", V: 1, K: "b"}, co(1, 1, wd("b"), ws("bc", 12), ws("b", 13), wd(""))},
+			{{Kind: "get", V: 1, K: "b"}, {Kind: "has", V: 1, K: ""}}}})
+	}
+	return [][]call{
+		// D1: a pair around a re-entrant Iterate whose consumer commits a batch of its own (delete, then set of one key); the outer
+		// batch is empty. Numbered pairs: the outer Commit is made after the inner one. Bid 0 twice (as generated until then): the inner
+		// pair uses up the goroutine's slot, the outer Commit is not made.
+		d1(1, 2), d1(0, 0), d1(1, 2, ws("b", 14), wd("")),
+		// D2: the consumer closes the store in callback 0; Batched in callback 1 fails, so there is no Commit
+		mk(call{Kind: "iter", V: 1, Lim: 9, Cb: [][]call{
+			{{Kind: "close", V: 1}, {Kind: "del", V: 1, K: "b"}},
+			{ba(1, 1), {Kind: "has", V: 5}, co(1, 1)}}},
+			call{Kind: "iter", V: 4, Fwd: true, Lim: 1, Cb: [][]call{{set(4, "abc", 15)}}}),
+		// D3: Close between Batched and Commit two levels down; later pairs fail at Batched; the outermost Commit meets the closed store
+		d3(1, 2, 3), d3(0, 0, 0),
+		// batch made in callback 0, committed in callback 1 (net content: deletes after sets); with lim 1 callback 1 never runs;
+		// with a nested Iterate that closes the store in between
+		across(9), across(1),
+		across(9, call{Kind: "iter", V: 3, Lim: 2, Cb: [][]call{{}, {{Kind: "close", V: 4}, {Kind: "flush", V: 1}}}}),
+	}
+}
+
 func runReentSeq(g *gen, count, toCoq int, seed uint64, st *vx.Stats, addCase func(string, any)) (hangs int) {
-	for n := 0; n < count && hangs < 1; n++ {
-		v := g.r.Intn(len(views))
-		pClose := 0
-		if g.r.Chance(1, 6) {
-			pClose = 8
+	directed := directedReentSeq()
+	for n := -len(directed); n < count && hangs < 1; n++ {
+		var script []call
+		mode := "reent-seq"
+		if n < 0 {
+			script = directed[n+len(directed)]
+			mode = "reent-seq-directed"
+		} else {
+			v := g.r.Intn(len(views))
+			pClose := 0
+			if g.r.Chance(1, 3) {
+				pClose = 8
+			}
+			script = g.prep(v)
+			if g.r.Chance(1, 3) {
+				script = append(script, g.call(0, 0)...)
+			}
+			script = append(script, g.reentIter(v, pClose))
+			if g.r.Chance(1, 3) {
+				script = append(script, g.reentIter(g.nearView(v), pClose))
+			}
+			script = append(script, call{Kind: "iter", V: 0, K: "", Fwd: true, Lim: 9})
 		}
-		script := g.prep(v)
-		if g.r.Chance(1, 3) {
-			script = append(script, g.call(0, 0)...)
-		}
-		script = append(script, g.reentIter(v, pClose))
-		if g.r.Chance(1, 3) {
-			script = append(script, g.reentIter(g.nearView(v), pClose))
-		}
-		script = append(script, call{Kind: "iter", V: 0, K: "", Fwd: true, Lim: 9})
 
 		var want []ret
-		rs := &refSt{s: gstate{map[string]string{}, false}}
+		rs := newRefSt()
 		for _, c := range script {
-			if c.Kind == "commit" && !rs.hasBatch {
+			if c.Kind == "commit" && !rs.hasBatch[c.Bid] {
 				continue
 			}
 			refCall(rs, c, &want)
@@ -350,13 +607,14 @@ func runReentSeq(g *gen, count, toCoq int, seed uint64, st *vx.Stats, addCase fu
 		where := "not started"
 		var done []call
 		var obs []ret
+		var skipped map[*call]bool
 		fin := make(chan struct{})
 		go func() {
 			defer close(fin)
 			a := newActor(newWorld())
 			a.where = func(s string) { mu.Lock(); where = s; mu.Unlock() }
 			for i, c := range script {
-				if c.Kind == "commit" && a.batch == nil {
+				if c.Kind == "commit" && a.batchOf(c) == nil {
 					continue
 				}
 				a.where(fmt.Sprintf("call %d: %s on view %d", i, c.Kind, c.V))
@@ -364,6 +622,7 @@ func runReentSeq(g *gen, count, toCoq int, seed uint64, st *vx.Stats, addCase fu
 				done = append(done, c)
 				flattenObs(a, r, &obs)
 			}
+			skipped = a.skipped
 			for _, f := range a.fails {
 				mu.Lock()
 				st.Fail(map[string]any{"kind": "flushkv-composition", "what": f, "script": script})
@@ -374,7 +633,7 @@ func runReentSeq(g *gen, count, toCoq int, seed uint64, st *vx.Stats, addCase fu
 		case <-fin:
 		case <-time.After(10 * time.Second):
 			mu.Lock()
-			st.Fail(map[string]any{"kind": "hang", "mode": "reent-seq", "seed": seed, "index": n, "stuck": where, "script": script,
+			st.Fail(map[string]any{"kind": "hang", "mode": mode, "seed": seed, "index": n, "stuck": where, "script": script,
 				"what": "a single goroutine: an Iterate consumer that calls back into the store never returns (10 s)"})
 			mu.Unlock()
 			st.Count("reent-seq:hang")
@@ -386,26 +645,42 @@ func runReentSeq(g *gen, count, toCoq int, seed uint64, st *vx.Stats, addCase fu
 			okRes = obs[i].eq(want[i])
 		}
 		if !okRes {
-			st.Fail(map[string]any{"kind": "reentrant-consumer-semantics", "mode": "reent-seq", "seed": seed, "index": n,
+			st.Fail(map[string]any{"kind": "reentrant-consumer-semantics", "mode": mode, "seed": seed, "index": n,
 				"script": script, "observed": obs, "snapshot_then_callbacks": want})
 		}
-		rd, wr := 0, 0
+		var sh reShape
 		for _, c := range script {
-			r, w := hasNested(c)
-			rd, wr = rd+r, wr+w
+			shapeOf(c, 1, &sh)
 		}
-		st.Case("reseq:"+fmt.Sprint(script, obs), rd+wr > 0 && len(obs) > len(script))
-		st.Count("mode:reent-seq")
-		if rd > 0 {
+		st.Case("reseq:"+fmt.Sprint(script, obs), sh.nestedReads+sh.nestedWrites > 0 && len(obs) > len(script))
+		st.Count("mode:" + mode)
+		if sh.nestedReads > 0 {
 			st.Count("reent-seq:nested-reads")
 		}
-		if wr > 0 {
+		if sh.nestedWrites > 0 {
 			st.Count("reent-seq:nested-writes")
 		}
-		st.Count(fmt.Sprintf("reent-seq:nested-calls-executed=%d", min(len(obs)-len(done), 6)))
+		if sh.nestedIter > 0 {
+			st.Count("reent-seq:script-with-nested-reentrant-iterate")
+		}
+		if sh.enclosing > 0 {
+			st.Count("reent-seq:script-with-pair-enclosing-iterate-or-pair")
+		}
+		if sh.laterCommit > 0 {
+			st.Count("reent-seq:script-with-commit-in-later-callback")
+		}
+		if sh.closeInside > 0 {
+			st.Count("reent-seq:script-with-close-in-consumer")
+		}
+		if len(skipped) > 0 {
+			st.Count("reent-seq:script-with-commit-not-made(no-batch-object)")
+		}
+		st.Count(fmt.Sprintf("reent-seq:consumer-depth=%d", sh.maxDepth))
+		st.Count(fmt.Sprintf("reent-seq:nested-calls-executed=%d", min(len(obs)-len(done), 12)/2*2))
 		if n < toCoq {
-			addCase(vx.App("CSeq", vx.ListOf(done, call.coq), vx.ListOf(obs, ret.coq)),
-				map[string]any{"mode": "reent-seq", "index": n, "script": done, "obs": obs})
+			made := prunedScript(done, skipped) // the calls that were made: a `commit` without a batch object is none
+			addCase(vx.App("CSeq", vx.ListOf(made, call.coq), vx.ListOf(obs, ret.coq)),
+				map[string]any{"mode": mode, "index": n, "script": made, "obs": obs, "commits_not_made": len(skipped)})
 		}
 		if n == 0 {
 			st.Sample(map[string]any{"mode": "reent-seq", "script": done, "obs": obs}, 8)
@@ -434,7 +709,7 @@ func runReentConc(g *gen, count, toCoq int, seed uint64, st *vx.Stats, addCase f
 			}
 		}
 		// pause inside callback jp (0 unless the snapshot is known to be longer)
-		rs := &refSt{s: gstate{map[string]string{}, false}}
+		rs := newRefSt()
 		var tmp []ret
 		for _, c := range prep {
 			refCall(rs, c, &tmp)
@@ -510,7 +785,7 @@ func runReentConc(g *gen, count, toCoq int, seed uint64, st *vx.Stats, addCase f
 			defer close(wdone)
 			wid <- goid()
 			for _, c := range wcalls {
-				if c.Kind == "commit" && wa.batch == nil {
+				if c.Kind == "commit" && wa.batchOf(c) == nil {
 					continue
 				}
 				inv := stamp()
@@ -530,7 +805,7 @@ func runReentConc(g *gen, count, toCoq int, seed uint64, st *vx.Stats, addCase f
 			mu.Unlock()
 			st.Fail(map[string]any{"kind": "hang", "mode": "reent-conc", "seed": seed, "index": n, "scenario": scenario,
 				"stuck": []string{fmt.Sprintf("consumer goroutine: %s in %s", s, top)},
-				"what": "Iterate with a consumer that calls back into the store does not get to the callback where the writer was to arrive: no other goroutine is involved yet (10 s)"})
+				"what":  "Iterate with a consumer that calls back into the store does not get to the callback where the writer was to arrive: no other goroutine is involved yet (10 s)"})
 			st.Count("reent-conc:hang")
 			hangs++
 			continue
